@@ -1201,10 +1201,10 @@ func main() {
 	// random sequences over every stack up to depth 3 (mem) / a selection (leveldb)
 	memStacks := stacks([]string{"mem"}, 3, []string{"noop", "b64det", "b64rand"})
 	ldbStacks := stacks([]string{"leveldb"}, 2, []string{"b64det", "b64rand"})
-	perMem, perLdb, coqEvery := 8, 4, 2
+	perMem, perLdb, coqEvery, perEdv := 8, 4, 2, 12
 
 	if thorough {
-		perMem, perLdb, coqEvery = 60, 20, 6
+		perMem, perLdb, coqEvery, perEdv = 60, 20, 6, 100
 	}
 
 	n := 0
@@ -1214,6 +1214,24 @@ func main() {
 			r := rng.Fork(uint64(i*1000 + j))
 			runCase("random", randomCase(r, st, 4+r.Intn(26)), tr, n%coqEvery == 0)
 			n++
+		}
+	}
+
+	// the real EDV encrypted formatter (own KMS, JWE, MAC), deterministic and random document ids: direct oracle only
+	edvStacks := []Stack{}
+	for _, f := range []string{"edvrand", "edvdet"} {
+		edvStacks = append(edvStacks,
+			Stack{Base: "mem", Wraps: []Wrap{{Kind: "fmt", Fmt: f}}},
+			Stack{Base: "mem", Wraps: []Wrap{{Kind: "fmt", Fmt: f}, {Kind: "cached"}}},
+			Stack{Base: "mem", Wraps: []Wrap{{Kind: "fmt", Fmt: f}, {Kind: "batched", Limit: 2}}},
+			Stack{Base: "mem", Wraps: []Wrap{{Kind: "cached"}, {Kind: "fmt", Fmt: f}}},
+			Stack{Base: "leveldb", Wraps: []Wrap{{Kind: "fmt", Fmt: f}}})
+	}
+
+	for i, st := range edvStacks {
+		for j := 0; j < perEdv; j++ {
+			r := rng.Fork(uint64(9_000_000 + i*1000 + j))
+			runCase("random-edv", randomCase(r, st, 4+r.Intn(12)), tr, false)
 		}
 	}
 
